@@ -7,7 +7,7 @@ PROPERTY_GROUPS = {
     'C05': ['xml'],
     'C06': ['rep', 'timing', 'dt', 'load', 'httprange'],
     'C08': ['timing'],
-    'C09': ['timing', 'rep', 'dt'],
+    'C09': ['timing', 'rep', 'dt', 'errors'],
     'C10': ['drm', 'mp4'],
     'C11': ['playready', 'mp4', 'drm'],
     'C12': ['mps'],
